@@ -363,6 +363,11 @@ func (rb *Buffer) ReadFrom(r io.Reader) (n int64, err error) {
 			if err != nil {
 				return
 			}
+			if rb.w != 0 {
+				// The tail is not full yet, the free space at the head of the
+				// buffer must not be filled before it.
+				continue
+			}
 			m, err = r.Read(rb.buf[:rb.r])
 			if m < 0 {
 				panic("RingBuffer.ReadFrom: reader returned negative count from Read")
